@@ -252,7 +252,7 @@ def last_state(txt):
     return out
 
 
-def simulate(module, cfg, num, depth, seed, var="hist", timeout=600, allvars=False):
+def _simulate_one(module, cfg, num, depth, seed, var, timeout, allvars):
     d = tempfile.mkdtemp(prefix="sim-", dir=scratch())
     for f in os.listdir(SPEC):
         if f.endswith(".tla") or f.endswith(".cfg"):
@@ -262,7 +262,6 @@ def simulate(module, cfg, num, depth, seed, var="hist", timeout=600, allvars=Fal
            "-metadir", os.path.join(d, "meta"), "-noGenerateSpecTE", "-deadlock", "-config", cfg,
            "-simulate", "file=%s,num=%d" % (os.path.join(d, "out", "b"), num), "-depth", str(depth),
            "-seed", str(seed), module]
-    t0 = time.time()
     try:
         p = subprocess.run(cmd, cwd=d, stdout=subprocess.PIPE, stderr=subprocess.STDOUT,
                            timeout=timeout, universal_newlines=True)
@@ -279,7 +278,23 @@ def simulate(module, cfg, num, depth, seed, var="hist", timeout=600, allvars=Fal
             continue
         hists.append(st if allvars else st[var])
     shutil.rmtree(d, True)
-    return hists, out, time.time() - t0
+    return hists, out
+
+
+def simulate(module, cfg, num, depth, seed, var="hist", timeout=600, allvars=False, procs=8):
+    """TLC -simulate behaviours; the request is split over several single-worker TLC processes with seeds
+    seed, seed+1, ... (deterministic for a given seed and procs)"""
+    import concurrent.futures as cf
+    t0 = time.time()
+    k = max(1, min(procs, num // 25))
+    share = [num // k + (1 if i < num % k else 0) for i in range(k)]
+    with cf.ThreadPoolExecutor(k) as ex:
+        parts = list(ex.map(lambda i: _simulate_one(module, cfg, share[i], depth, seed + i, var, timeout, allvars), range(k)))
+    hists, outs = [], []
+    for h, o in parts:
+        hists.extend(h)
+        outs.append(o)
+    return hists, "\n".join(outs), time.time() - t0
 
 
 def validate_parallel(trace_module, cfg, traces, nproc=8, chunk=400, timeout=1800, extra_env=None):
